@@ -285,7 +285,10 @@ def run_ode(starting_state: np.ndarray,
 
         # perform the integration and collect all the points at which stuff
         # was computed
-        while True:  # iteratively add interpolation points
+        # The RK45 constructor already evaluated the equations once at t0.
+        # If that very first evaluation was not OK (e.g., a NaN derivative),
+        # the initial step size is NaN and `step()` would never return.
+        while func_state.is_ok:  # iteratively add interpolation points
             integration.step()  # do the integration step
             if not func_state.is_ok:
                 break  # some out-of-bounds thing happened! quit!
